@@ -133,11 +133,11 @@ func versionTemplates(eco, size string) []string {
 		m = expandAll("(|v){d}(|.{d}|.{d}.{d}|.{d}.{d}.{d})(|-{n}|-{n}.{n}|-{i}{i}|-{n}{n}.{d})(|+{n})", "{d}{d}.{d}{d}")
 		l = expandAll("(|v){d}(|.{d}|.{d}.{d}|.{d}.{d}.{d})(|"+semverPreL[1:len(semverPreL)-1]+")(|+{n})", "{d}{d}.{d}{d}.{d}{d}.{d}{d}")
 	case "debian":
-		s = expandAll("{d}.{d}", "{d}.{d}-{d}", "{d}:{d}.{d}", "{d}.{d}{[a-z+~.]}", "{d}{[a-z+~.]}{d}", "{d}.{d}~{l}{l}{d}", "{d}.{d}+{l}{d}-{d}", "{d}{d}.{d}")
+		s = expandAll("{d}.{d}", "{d}.{d}-{d}", "{d}:{d}.{d}", "{d}.{d}{[a-z+~.]}", "{d}{[a-z+~.]}{d}", "{d}.{d}{[a-z+~.\\-]}{[a-z+~.]}{l}{d}", "{d}.{d}+{l}{d}-{d}", "{d}{d}.{d}")
 		m = expandAll("(|{d}:){d}(.{d}|{[a-z+~.]}{d}|.{d}{[a-z+~.]}|.{d}.{d}|{[a-z+~.]}{[a-z+~.]}{d})(|-{d}|-{d}{[a-z+~.]}{d})", "{d}{d}.{d}{d}", "{d}.{d}~{l}{l}{d}", "{d}.{d}-{d}-{d}")
 		l = expandAll("(|{d}:|{d}{d}:){d}(|.{d}|{[A-Za-z+~.]}{d}|.{d}{[A-Za-z+~.]}|.{d}.{d}|{[A-Za-z+~.]}{[A-Za-z+~.]}{d}|.{d}{[a-z+~.]}{[a-z+~.]}|.{d}{d}{d})(|-{d}|-{d}{[a-z+~.]}{d}|-{[a-z+~.]}{d}|-{d}-{d})", "{d}.{d}~{l}{l}{d}", "0{d}.0{d}", "{d}{d}{d}{d}{d}{d}{d}{d}{d}{d}{d}{d}{d}{d}{d}{d}{d}{d}{d}{d}{d}", "{d}{d}{d}{d}{d}{d}{d}{d}{d}{d}{d}{d}{d}{d}{d}{d}{d}{d}{d}{d}")
 	case "rpm":
-		s = expandAll("{d}.{d}", "{d}.{d}-{d}", "{d}:{d}.{d}", "{d}.{d}{[a-z~^._]}", "{d}{[a-z~^._]}{d}", "{d}.{d}~{l}{l}{d}", "{d}.{d}^{l}{d}", "{d}{d}.{d}")
+		s = expandAll("{d}.{d}", "{d}.{d}-{d}", "{d}:{d}.{d}", "{d}.{d}{[a-z~^._]}", "{d}{[a-z~^._]}{d}", "{d}.{d}{[a-z~^._]}{[a-z~^._]}{l}{d}", "{d}.{d}^{l}{d}", "{d}{d}.{d}")
 		m = expandAll("(|{d}:){d}(.{d}|{[a-z~^._+]}{d}|.{d}{[a-z~^._+]}|.{d}.{d}|{[a-z~^._]}{[a-z~^._]}{d})(|-{d}|-{d}.{l}{l}{d})", "{d}{d}.{d}{d}", "{d}.{d}~{l}{l}{d}", "{d}.{d}^{l}{l}{l}{d}")
 		l = expandAll("(|{d}:|{d}{d}:){d}(|.{d}|{[A-Za-z~^._+]}{d}|.{d}{[A-Za-z~^._+]}|.{d}.{d}|{[A-Za-z~^._+]}{[A-Za-z~^._+]}{d}|.{d}{[a-z~^._]}{[a-z~^._]}|.{d}{d}{d})(|-{d}|-{d}.{l}{l}{d}|-{[a-z~^._]}{d})", "0{d}.0{d}", "{d}{d}{d}{d}{d}{d}{d}{d}{d}{d}{d}{d}{d}{d}{d}{d}{d}{d}{d}{d}{d}", "{d}{d}{d}{d}{d}{d}{d}{d}{d}{d}{d}{d}{d}{d}{d}{d}{d}{d}{d}{d}")
 	case "alpm":
